@@ -195,6 +195,10 @@ def run(ctx):
         judge([ST(outer), TX("a  b"), ST(inner), TX("c  d"), ET(inner), TX("x   y"), ET(outer), TX("p  q")], 0,
               "nested <%s><%s>: text after the inner end tag is still preserved, text after the outer one is not" % (outer, inner))
     judge([ET("pre"), TX("a  b")], 0, "stray </pre> outside a preserved element")
+    # a white-space run ends at the tags of a preserving element too (the run before it does not swallow the one after it)
+    for el in ("textarea", "script", "pre"):
+        judge([TX("a "), ST(el), ET(el), TX(" (b)")], 0, "around an empty <%s>: 'a ' + ' (b)'" % el)
+        judge([TX("a "), ST(el), TX("p  q "), ET(el), {"type": "SpaceCharacters", "data": " "}, TX("b")], 0, "around <%s>p  q </%s>: 'a ' + ' ' + 'b'" % (el, el))
     for mid in ({"type": "StartTag", "name": "b", "namespace": html_ns, "data": {}}, {"type": "Comment", "data": "c"}, {"type": "EndTag", "name": "b", "namespace": html_ns}):
         judge([{"type": "Characters", "data": "a "}, mid, {"type": "Characters", "data": " b"}], 0, "across %s: 'a ' + ' b'" % mid["type"])
         judge([{"type": "SpaceCharacters", "data": " "}, dict(mid), {"type": "SpaceCharacters", "data": " "}], 0, "across %s: ' ' + ' '" % mid["type"])
